@@ -754,7 +754,11 @@ class Interp:
                 return self.index_value(st, v, idx)
             if "cidx" in e:
                 if e["from_end"]:
-                    raise Unanalysable("constant index from end")
+                    # `[.., x, _]`: offset counted back from the end (the pattern's length test
+                    # has established len >= min_length)
+                    if isinstance(v, VSlice):
+                        return self.index_value(st, v, VInt(64, False, lin=v.len - e["cidx"]))
+                    raise Unanalysable("constant index from end on %r" % (v,))
                 return self.index_value(st, v, mk_const(e["cidx"], 64, False))
         raise Unanalysable("projection %r on %r" % (e, v))
 
@@ -994,6 +998,15 @@ class Interp:
                     return v
                 if isinstance(v, VRef):
                     return VRef(v.cell, v.path, rv["mut"])
+            if p["p"] and isinstance(p["p"][-1], dict) and "sub_from" in p["p"][-1] and not rv["mut"]:
+                # `rest @ ..` in a slice pattern: &(*s)[from..to] or, counted from the end, &(*s)[from..len-to]
+                e = p["p"][-1]
+                v = self.read_place(st, frame, {"l": p["l"], "p": p["p"][:-1]})
+                if isinstance(v, VSlice):
+                    if e["from_end"]:
+                        return VSlice(v.buf, v.start + e["sub_from"], v.len - e["sub_from"] - e["sub_to"])
+                    return VSlice(v.buf, v.start + e["sub_from"], Lin.const(e["sub_to"] - e["sub_from"]))
+                raise Unanalysable("subslice pattern on %r" % (v,))
             cell, path = self.place_loc(st, frame, p)
             if path and path[-1] == ("deref",):
                 # reference to the unsized contents of a container cell
@@ -1780,8 +1793,15 @@ class Interp:
             h = self.ext.get("__default__")
         return h(self, st, callee, target, args, ctx)
 
+    @staticmethod
+    def computed_float(v):
+        """a float that is an expression over transmitted bits (not a plain parameter or constant):
+        a helper applied to it is one step of a chain (`convert(raw).map(rescale)`) and is
+        interpreted in place, so that the field's value stays one expression over the raw bits"""
+        return isinstance(v, VFloat) and isinstance(v.term, tuple) and v.term[0] not in ("sym", "fc", "fconst")
+
     def call_local(self, st, b, args, ctx, target=None):
-        if not self.inline_leaves and self.is_leaf(b):
+        if not self.inline_leaves and self.is_leaf(b) and not any(self.computed_float(a) for a in args):
             args = [self.norm(st, a) for a in args]
             st.event("leaf", b["def"], tuple(valkey(a) for a in args))
             self.leaf_calls.setdefault(b["def"], []).append((tuple(args), st))
@@ -1846,7 +1866,7 @@ class Interp:
             items = []
         else:
             raise Unanalysable("closure args %r" % (argtuple,))
-        if not self.inline_leaves and self.is_leaf(b):
+        if not self.inline_leaves and self.is_leaf(b) and not any(self.computed_float(a) for a in items):
             ups = []
 
             def flat(u):
